@@ -46,12 +46,11 @@ def facts(ctx):
           r"INGREDIENT_MANIFEST_VALIDATED", r"INGREDIENT_MANIFEST_MISMATCH", r"Claim::verify_claim\(",
           r"visited\.insert\(ingredient\.label\(\)\.to_owned\(\)\)", r"Store::ingredient_checks\(", r"depth\.saturating_add\(1\)",
           r"INGREDIENT_MANIFEST_MISSING")
+    # fix c381c9a00 (F-BINDING-DEPTH): depth test on the size of `visited`, before the insertion
     order(bnd, "get_hash_binding_manifest_impl",
-          r"!visited\.insert\(claim\.label\(\)\.to_owned\(\)\)", r"!claim\.update_manifest\(\)\s*&&\s*!claim\.hash_assertions\(\)\.is_empty\(\)",
+          r"visited\.len\(\)\s*>=\s*MAX_INGREDIENT_DEPTH\s*\{\s*return\s+None", r"!visited\.insert\(claim\.label\(\)\.to_owned\(\)\)", r"!claim\.update_manifest\(\)\s*&&\s*!claim\.hash_assertions\(\)\.is_empty\(\)",
           r"for\s+i\s+in\s+claim\.ingredient_assertions\(\)", r"Relationship::ParentOf", r"parent\.update_manifest\(\)",
           r"return\s+self\.get_hash_binding_manifest_impl\(parent,\s*visited\)", r"!parent\.hash_assertions\(\)\.is_empty\(\)")
-    if "MAX_INGREDIENT_DEPTH" in bnd or re.search(r"\bdepth\b", bnd):
-        raise TieBroken("srcfacts: get_hash_binding_manifest_impl now has a depth limit: update Model/IngredientGraph.v (binding) and retire F-BINDING-DEPTH")
     sv = common.fn_body(t, r"fn\s+get_store_validation_info\s*<", "get_store_validation_info")
     order(sv, "get_store_validation_info", r"get_claim_referenced_manifests\(", r"get_hash_binding_manifest\(")
     v = ("(* generated from sdk/src/store.rs on every run — do not edit *)\n"
@@ -699,20 +698,37 @@ def e2e_cases(ctx, limit):
 
 
 def stack_probe(ctx, n, mode, stats):
-    """one case per harness process: a stack overflow aborts the process"""
+    """the hard-binding fans of F-BINDING-DEPTH (fixed in c381c9a00), one harness process each because a stack overflow
+    aborts the process: ordinary cases now (walk mode: oracle + model correspondence; jumbf mode, through
+    Reader::with_stream on the unsigned store: oracle) — a crash is a violation again"""
     c = deep_binding(n, mode)
     c["id"] = 0
     t0 = time.time()
-    r = common.run_harness("c19", [c], timeout=900)[0]
-    a = analyse(c)
-    mi = {"fam": c["fam"], "V": a["V"], "E": a["E"], "crashed": r["r"] in ("crash", "panic"), "binding_chain": binding_chain(c),
-          "cyclic": a["cyclic"], "dangling": a["dangling"], "maxdist": a["maxdist"], "mode": mode}
-    stats.setdefault("stack_probe", []).append({"n": n, "mode": mode, "result": r["r"], "wall_s": round(time.time() - t0, 1),
-                                                "binding_chain": mi["binding_chain"], "msg": str(r.get("msg", ""))[-120:]})
     small = {"mode": mode, "fam": c["fam"], "root": 0, "generator": f"deep_binding({n})", "nodes_elided": len(c["nodes"]),
              "shape": "root: componentOf u_n..u_2, parentOf u_1; u_i (update): parentOf u_{i+1}; u_{n+1}: standard manifest with a data hash"}
-    if r["r"] in ("crash", "panic"):
-        ctx.report_violation(small, f"validation did not terminate normally ({r['r']}): {str(r.get('msg'))[-160:]}", mi)
+    rec = {"n": n, "mode": mode, "binding_chain": binding_chain(c)}
+    stats.setdefault("stack_probe", []).append(rec)
+    if mode == "walk":
+        nv, nd = len(ctx.violations), len(ctx.disagreements)
+        evaluate_walk(ctx, [c], True, stats)
+        for v in ctx.violations[nv:]:
+            v["case"] = small
+        for d in ctx.disagreements[nd:]:
+            d["case"] = small
+        rec["result"] = "violation" if len(ctx.violations) > nv else ("disagreement" if len(ctx.disagreements) > nd else "ok")
+    else:
+        r = common.run_harness("c19", [c], timeout=900)[0]
+        a = analyse(c)
+        mi = {"fam": c["fam"], "V": a["V"], "E": a["E"], "crashed": r["r"] in ("crash", "panic"), "binding_chain": rec["binding_chain"],
+              "cyclic": a["cyclic"], "dangling": a["dangling"], "maxdist": a["maxdist"], "mode": mode}
+        rec["result"] = r["r"] + (":" + r["kind"] if "kind" in r else "") + (":" + r["state"] if "state" in r else "")
+        if r["r"] in ("crash", "panic"):
+            ctx.report_violation(small, f"validation did not terminate normally ({r['r']}): {str(r.get('msg'))[-160:]}", mi)
+        elif r.get("us", 0) > 4 * budget_us(a):
+            ctx.report_violation(small, f"reading took {r['us']} us for |V|={a['V']} |E|={a['E']}", mi)
+        elif r["r"] == "ok" and r.get("state") in ("Valid", "Trusted"):
+            ctx.report_violation(small, f"unsigned store reported {r['state']}", mi)
+    rec["wall_s"] = round(time.time() - t0, 1)
 
 
 def run(ctx):
